@@ -3,8 +3,9 @@
    keeps of S's input types, and client_generators/input_fields.py
    parse_input_field_default_value (where input defaults are read).   Definitions only.
 
-   [fixed = false] everywhere is the code in /repo; [fixed = true] is the code with the
-   proposed patches fixes/C19-*.diff applied (the tie says which one it is looking at). *)
+   The model follows /repo after the fixes 4077122 (defaults read from field.default_value when
+   there is no SDL node), 4fe57ef (build_client_schema failures and httpx.UnsupportedProtocol
+   become IntrospectionError) and 6530558 (walk yields files only). *)
 From Coq Require Import List String Ascii ZArith Bool.
 From AC Require Import Base.Sexp Base.Strs Base.Json Model.SchemaSrc Model.Loader.
 Import ListNotations.
@@ -62,25 +63,25 @@ Definition request_of (en : env) (s : settings) : string + request :=
 Inductive urlclass :=
 | UOk
 | UInvalid          (* httpx.InvalidURL: malformed host/port, control characters, too long *)
-| UNoScheme.        (* httpx.UnsupportedProtocol: no or non-http(s) scheme ("localhost/graphql") *)
+| UNoScheme.        (* httpx.UnsupportedProtocol: no or non-http(s) scheme ("localhost/graphql");
+                       translated like InvalidURL *)
 
 Record response := { r_status : Z; r_body : option json }.   (* None: body is not JSON *)
 
 Inductive ierr :=
 | EInvalidUrl | EStatus (z : Z) | ENotJson | EFormat | EErrors (e : json) | EDataKey
-| EBuild.     (* only with the patch: build_client_schema refused the data *)
+| EBuild.     (* build_client_schema refused the data *)
 
 Inductive outcome :=
 | OError (e : ierr)              (* ariadne_codegen.exceptions.IntrospectionError *)
-| OCrash (exn : string)          (* some other exception escapes *)
 | OData (kv : list (string * json)).
 
 Definition is_success (z : Z) : bool := (200 <=? z)%Z && (z <=? 299)%Z.
 
-Definition introspect_remote_schema (fixed : bool) (u : urlclass) (r : response) : outcome :=
+Definition introspect_remote_schema (u : urlclass) (r : response) : outcome :=
   match u with
   | UInvalid => OError EInvalidUrl
-  | UNoScheme => if fixed then OError EInvalidUrl else OCrash "UnsupportedProtocol"
+  | UNoScheme => OError EInvalidUrl
   | UOk =>
       if negb (is_success (r_status r)) then OError (EStatus (r_status r)) else
       match r_body r with
@@ -107,22 +108,21 @@ Definition client_schema_gate (d : list (string * json)) : gate :=
   end.
 
 (* get_graphql_schema_from_url up to the point where graphql-core walks the types;
-   [deep_ok]: whether build_client_schema accepts what lies below the gate (graphql-core's
-   judgement, supplied by the caller; [Some exn]: it raises exn) *)
+   [deep]: whether build_client_schema accepts what lies below the gate (graphql-core's
+   judgement, supplied by the caller; [Some exn]: it raises exn, one of TypeError, KeyError,
+   AttributeError, ValueError, GraphQLError - all translated) *)
 Inductive schema_outcome :=
-| SError (e : ierr) | SCrash (exn : string) | SBuilt (d : list (string * json)).
+| SError (e : ierr) | SBuilt (d : list (string * json)).
 
-Definition schema_from_url (fixed : bool) (u : urlclass) (r : response) (deep : option string)
+Definition schema_from_url (u : urlclass) (r : response) (deep : option string)
   : schema_outcome :=
-  match introspect_remote_schema fixed u r with
+  match introspect_remote_schema u r with
   | OError e => SError e
-  | OCrash x => SCrash x
   | OData d =>
-      let raise x := if fixed then SError EBuild else SCrash x in
       match client_schema_gate d with
-      | GTypeError => raise "TypeError"
-      | GKeyError => raise "KeyError"
-      | GDeeper => match deep with Some x => raise x | None => SBuilt d end
+      | GTypeError => SError EBuild
+      | GKeyError => SError EBuild
+      | GDeeper => match deep with Some _ => SError EBuild | None => SBuilt d end
       end
   end.
 
@@ -159,15 +159,6 @@ Definition any_failure (u : urlclass) (r : response) (deep : option string) : bo
   bad_url u || non_2xx r || non_json r || bad_format r || has_errors r || data_not_object r
   || data_malformed r deep.
 
-(* the two classes on which the unpatched code lets a foreign exception escape: a URL without
-   http(s) scheme, and a response that passes every check of introspect_remote_schema but whose
-   data is not a complete introspection result *)
-Definition earlier_failure (u : urlclass) (r : response) : bool :=
-  bad_url u || non_2xx r || non_json r || bad_format r || has_errors r || data_not_object r.
-Definition g_c19_errors (u : urlclass) (r : response) (deep : option string) : bool :=
-  negb (match u with UNoScheme => true | _ => false end) &&
-  (earlier_failure u r || negb (data_malformed r deep)).
-
 (* ================= 3. what introspection keeps of the input types ================= *)
 Definition inputs := list (string * list ifield).
 
@@ -187,18 +178,20 @@ Definition via_fields (fs : list ifield) : list ifield :=
 
 Definition via_introspection (s : inputs) : inputs := map (fun p => (fst p, via_fields (snd p))) s.
 
-(* parse_input_field_default_value: the default is read from the SDL node only *)
+(* parse_input_field_default_value: the literal of the SDL node when there is one, else the
+   literal rebuilt from field.default_value (get_default_value_node; graphql-core's ast_from_value
+   refusing the value - a custom scalar with an object/list default - is outside the model) *)
 Inductive pydefault :=
 | PRequired                  (* no value: the pydantic field is required *)
 | PNone                      (* = None *)
 | PLiteral (v : cvalue)      (* rendering of node.default_value *)
-| PValue (v : cvalue).       (* patch only: rendering of ast_from_value(field.default_value) *)
+| PValue (v : cvalue).       (* rendering of ast_from_value(field.default_value) *)
 
-Definition field_default (fixed : bool) (f : ifield) : pydefault :=
+Definition field_default (f : ifield) : pydefault :=
   match (if if_has_node f then if_ast_default f else None) with
   | Some v => PLiteral v
   | None =>
-      match (if fixed then if_value_default f else None) with
+      match if_value_default f with
       | Some v => PValue v
       | None => if nullable (if_type f) then PNone else PRequired
       end
@@ -209,8 +202,8 @@ Definition is_required (d : pydefault) : bool := match d with PRequired => true 
 (* what the generated class says about one field: wire name, type, requiredness, and the value a
    caller gets when omitting it.  A literal denotes the value graphql-core coerces it to
    (field.default_value). *)
-Definition semantic_default (fixed : bool) (f : ifield) : option cvalue :=
-  match field_default fixed f with
+Definition semantic_default (f : ifield) : option cvalue :=
+  match field_default f with
   | PRequired => None
   | PNone => Some CNull
   | PLiteral _ => if_value_default f
@@ -220,13 +213,13 @@ Definition semantic_default (fixed : bool) (f : ifield) : option cvalue :=
 Record pfield := { pf_name : string; pf_type : gtype; pf_required : bool;
                    pf_default : option cvalue }.
 
-Definition gen_field (fixed : bool) (f : ifield) : pfield :=
+Definition gen_field (f : ifield) : pfield :=
   {| pf_name := if_name f; pf_type := if_type f;
-     pf_required := is_required (field_default fixed f);
-     pf_default := semantic_default fixed f |}.
+     pf_required := is_required (field_default f);
+     pf_default := semantic_default f |}.
 
-Definition gen_inputs (fixed : bool) (s : inputs) : list (string * list pfield) :=
-  map (fun p => (fst p, map (gen_field fixed) (snd p))) s.
+Definition gen_inputs (s : inputs) : list (string * list pfield) :=
+  map (fun p => (fst p, map gen_field (snd p))) s.
 
 (* the input object types of a type map (Model/Loader.v), in type-map order: what
    InputTypesGenerator._filter_input_types walks *)
@@ -289,9 +282,9 @@ Definition dInputs (e : sexp) : option inputs :=
                   | L [A n; fs] => option_map (fun l => (n, l)) (dList ifield_of_sexp fs)
                   | _ => None end) e.
 
-Definition decisions (fixed : bool) (s : inputs) : sexp :=
+Definition decisions (s : inputs) : sexp :=
   L (map (fun p => L [A (fst p);
-        L (map (fun f => L [A (if_name f); pydefault_to_sexp (field_default fixed f)]) (snd p))]) s).
+        L (map (fun f => L [A (if_name f); pydefault_to_sexp (field_default f)]) (snd p))]) s).
 
 Definition run_introspect (e : sexp) : sexp :=
   match e with
@@ -312,22 +305,21 @@ Definition run_introspect (e : sexp) : sexp :=
                         sB (q_verify q); sB (q_descriptions q)]
           end
       | _, _, _ => sErr "request" end
-  | L [A "outcome"; fx; u; st; body; deep] =>
-      match dB fx, dUrl u, dZ st, dOpt json_of_sexp body, dOpt dStr deep with
-      | Some fx, Some u, Some st, Some body, Some deep =>
+  | L [A "outcome"; u; st; body; deep] =>
+      match dUrl u, dZ st, dOpt json_of_sexp body, dOpt dStr deep with
+      | Some u, Some st, Some body, Some deep =>
           let r := {| r_status := st; r_body := body |} in
-          L [match schema_from_url fx u r deep with
+          L [match schema_from_url u r deep with
              | SError x => L [A "introspection-error"; ierr_to_sexp x]
-             | SCrash x => L [A "crash"; A x]
              | SBuilt _ => L [A "schema"]
              end;
-             sB (any_failure u r deep); sB (g_c19_errors u r deep)]
-      | _, _, _, _, _ => sErr "outcome" end
-  | L [A "inputs"; fx; s] =>
-      match dB fx, dInputs s with
-      | Some fx, Some s =>
-          L [decisions false s; decisions fx (via_introspection s);
+             sB (any_failure u r deep)]
+      | _, _, _, _ => sErr "outcome" end
+  | L [A "inputs"; s] =>
+      match dInputs s with
+      | Some s =>
+          L [decisions s; decisions (via_introspection s);
              sB (wf_sdl s); sB (no_defaults s); sB (no_deprecated s); sB (no_nonnull_default s)]
-      | _, _ => sErr "inputs" end
+      | None => sErr "inputs" end
   | _ => sErr "introspect: bad command"
   end.
